@@ -166,6 +166,7 @@ func init() {
 				s.Items = mergeBundles(r2, s.Items)
 			}
 			topic := ""
+			unknownTopic := false
 			switch helpMode {
 			case 4:
 				s.Items = append(s.Items, g.Descend("help"))
@@ -181,7 +182,21 @@ func init() {
 				if len(cs) > 0 && r2.Bool() {
 					topic = r2.Pick(cs)
 				} else {
+					unknownTopic = true
 					topic = "zz-no-such-topic"
+					// the name of a command of an enclosing level (the target itself, its siblings, ...) is no topic here either
+					var anc []string
+					for n := target; n.Parent != nil; n = n.Parent {
+						for name, c := range n.Parent.Children {
+							if _, here := target.Children[name]; !here && !c.IsHelp {
+								anc = append(anc, name)
+							}
+						}
+					}
+					sortStrings(anc)
+					if len(anc) > 0 && r2.Bool() {
+						topic = r2.Pick(anc)
+					}
 				}
 				s.Items = append(s.Items, &Item{K: IPos, Tok: topic, Tokens: []string{topic}, Level: g.Node().Path})
 			default:
@@ -272,7 +287,7 @@ func init() {
 				if len(oc.Calls) != 0 {
 					return fail(fmt.Sprintf("help requested but user CommandFn of %v ran", callNodes(oc.Calls)))
 				}
-				if helpMode == 5 && topic == "zz-no-such-topic" {
+				if helpMode == 5 && unknownTopic {
 					if !oc.DispHasErr || oc.DispHelp {
 						return fail(fmt.Sprintf("unknown help topic: expected an error other than ErrorHelpCalled, got %q", oc.DispErr))
 					}
